@@ -85,7 +85,25 @@ func parseField(s string, lo, hi int) (*field, bool) {
 
 func ownNext(expr string, ms int64) (int64, bool) {
 	expr = strings.TrimSpace(expr)
-	t := time.Unix(0, ms*int64(time.Millisecond)).In(time.Local)
+	loc := time.Local
+	for _, pre := range []string{"CRON_TZ=", "TZ="} {
+		if strings.HasPrefix(expr, pre) {
+			// "TZ=<zone> <fields>": the fields are wall-clock time of that zone
+			i := strings.Index(expr, " ")
+			if i < 0 {
+				return 0, false
+			}
+			l, err := time.LoadLocation(expr[len(pre):i])
+			if err != nil {
+				return 0, false
+			}
+			loc, expr = l, strings.TrimSpace(expr[i:])
+			if loc.String() != "UTC" && !fixedOffset(loc, ms) {
+				return 0, false // zones with daylight saving transitions near the instant are left to the library
+			}
+		}
+	}
+	t := time.Unix(0, ms*int64(time.Millisecond)).In(loc)
 	if strings.HasPrefix(expr, "@every ") {
 		d, err := time.ParseDuration(strings.TrimSpace(strings.TrimPrefix(expr, "@every ")))
 		if err != nil || d < time.Second {
@@ -180,4 +198,17 @@ func ExpandTemplate(tmpl, id string, occ int64) (string, bool) {
 		}
 		rest = rest[i+j+2:]
 	}
+}
+
+// fixedOffset: the zone has one and the same offset from a year before ms to six years after it (no transitions to
+// reason about).
+func fixedOffset(loc *time.Location, ms int64) bool {
+	t := time.Unix(0, ms*int64(time.Millisecond)).In(loc)
+	_, off := t.Zone()
+	for d := -365; d < 6*366; d += 20 {
+		if _, o := t.AddDate(0, 0, d).Zone(); o != off {
+			return false
+		}
+	}
+	return true
 }
